@@ -104,7 +104,16 @@ def renderPk (pk : List Pk) : String :=
 /-- actors / rollapps outside the declared ranges are "nobody": map them to ids no object has -/
 def actorOf (d : DState) (s : String) : Nat :=
   let i := idx! s
+  -- `m<i>`: the i-th blocked module account (`m0` = the distribution module account) = address 900+i
+  -- (`Core.blockedAddr`)
+  if s.startsWith "m" then 900 + i else
   if i < d.nActors then i else 100000 + i
+
+/-- result class of a rejected message other than `update`: the bank's refusal of the recipient
+    (`sdkerrors.ErrUnauthorized` "is not allowed to receive funds") is told apart, everything else is `err` -/
+def errClass : Err → String
+  | .blockedRecipient => "blockedRecipient"
+  | _ => "err"
 def raOf (d : DState) (s : String) : Nat :=
   let i := idx! s
   if i < d.nRollapps then i else 100000 + i
@@ -181,7 +190,7 @@ def step (d : DState) (f : List String) : DState × String :=
       let isUpd := match op with | .update _ => true | _ => false
       let res := match e with
         | none => "ok"
-        | some err => if isUpd then updClass err else "err"
+        | some err => if isUpd then updClass err else errClass err
       let pk := prunePkts d.st s' d.pkts
       ({ d with st := s', pkts := pk }, render s' res d.nActors ++ " | pk=" ++ renderPk pk)
 
